@@ -401,11 +401,12 @@ class PlainTermsReader(base.TermsReader, LineReader):
                 yield (fieldname, btext)
 
     def terms_from(self, fieldname, prefix):
-        self._find_field(fieldname)
-        for btext in self._iter_btexts():
-            if btext < prefix:
+        # Every term at or after (fieldname, prefix), continuing through the
+        # following fields
+        for fname, btext in self.terms():
+            if fname < fieldname or (fname == fieldname and btext < prefix):
                 continue
-            yield (fieldname, btext)
+            yield (fname, btext)
 
     def items(self):
         for fieldname, btext in self.terms():
